@@ -367,6 +367,18 @@ class PDLInterpFunctions(InterpreterFunctions):
         )
         return ()
 
+    @impl(pdl_interp.EraseOp)
+    def run_erase(
+        self,
+        interpreter: Interpreter,
+        op: pdl_interp.EraseOp,
+        args: tuple[Any, ...],
+    ) -> tuple[Any, ...]:
+        assert len(args) == 1
+        assert isinstance(args[0], Operation)
+        self.get_rewriter(interpreter).erase_op(args[0])
+        return ()
+
     @impl(pdl_interp.CreateAttributeOp)
     def run_create_attribute(
         self,
